@@ -661,6 +661,11 @@ func (st *State) call(x *ssa.Call) []*State {
 	// package functions with bodies
 	if f := cc.StaticCallee(); f != nil && f.Blocks != nil && f.Pkg == st.Fn.Pkg {
 		if !ip.InlineCalls && ip.isPurePredicate(f) {
+			// a shallow predicate (`a == K || p(a)`) is evaluated in place: its atoms — comparisons and the deeper predicates it
+			// calls — are then the same whether the caller spells the condition out or calls the predicate
+			if len(f.Blocks) <= 4 && st.depth < 12 && !ip.inProgress[f] {
+				return st.inlineCall(x, f, args)
+			}
 			var parts []string
 			for i, a := range args {
 				parts = append(parts, "⟦"+ip.regForm(st.intOf(a, cc.Args[i].Type(), "p"))+"⟧")
